@@ -1,5 +1,5 @@
 (* C20 - duplicated rules never contradict each other.  Statements only (proofs: Kernels/Order.v, Kernels/Pairs.v). *)
-From ZL Require Import Base.Bytes Kernels.Order Kernels.Pairs Kernels.Names Kernels.NamesFacts Kernels.GeneralNames Kernels.GeneralNamesFacts.
+From ZL Require Import Base.Bytes Kernels.Order Kernels.Pairs Kernels.Names Kernels.NamesFacts Kernels.GeneralNames Kernels.GeneralNamesFacts Kernels.Urls Kernels.UrlsFacts Kernels.Scope Kernels.SubjPresence Kernels.CaKu.
 From Coq Require Import ZArith List.
 Open Scope Z_scope.
 
@@ -57,6 +57,42 @@ Theorem c20_raw_twins : forall v, rv_san_ext v = rv_ian_ext v -> rv_san v = rv_i
   r_san_dns_not_ia5 v = r_ian_dns_not_ia5 v /\ r_san_uri_not_ia5 v = r_ian_uri_not_ia5 v /\ r_san_empty_name v = r_ian_empty_name v.
 Proof. exact raw_twins_agree. Qed.
 
+(* related URL rules (Kernels/Urls.v): the sub-CA / subscriber copies are one rule; the strict S/MIME rule implies the
+   legacy one; the code-signing CDP rule implies the TLS one - and "HTTP URL" as a scheme is NOT the text prefix http:// *)
+Theorem c20_issuer_url_twins : forall v, l_sub_ca_issuer_url v = l_sub_cert_issuer_url v.
+Proof. exact issuer_url_twins. Qed.
+Theorem c20_cdp_url_twins : forall v, l_sub_ca_cdp_url v = l_sub_cert_cdp_url v.
+Proof. exact cdp_url_twins. Qed.
+Theorem c20_strict_implies_legacy : forall v, l_strict_http_only v = 3 -> l_legacy_one_http v = 3.
+Proof. exact strict_implies_legacy. Qed.
+Theorem c20_cs_cdp_stricter : forall v, l_cs_cdp v = 3 -> l_cdp_not_http v = 3.
+Proof. exact cs_cdp_stricter. Qed.
+Theorem c20_scheme_is_not_prefix : exists v, l_ocsp_http_only v = 3 /\ l_sub_cert_ocsp_url v = 6.
+Proof. exact scheme_is_not_prefix. Qed.
+
+(* companion rules about one attribute (Kernels/SubjPresence.v): "must appear" and "must not appear" never both fire;
+   the locality and province "must appear" rules are one condition; a DV certificate that passes the invalid-values
+   rule passes each of the five DV conflict rules *)
+Theorem c20_locality_rules_exclusive : forall v, l_locality_must_appear v = 6 -> l_locality_must_not_appear v = 3.
+Proof. exact locality_rules_exclusive. Qed.
+Theorem c20_province_rules_exclusive : forall v, l_province_must_appear v = 6 -> l_province_must_not_appear v = 3.
+Proof. exact province_rules_exclusive. Qed.
+Theorem c20_locality_province_same : forall v, l_locality_must_appear v = l_province_must_appear v.
+Proof. exact locality_province_same. Qed.
+Theorem c20_dv_values_imply_no_conflict : forall v o,
+  l_dv_invalid_values v = 3 -> In o [oL; oO; oPostal; oST; oStreet] -> l_dv_conflicts o v = 3.
+Proof. exact dv_values_imply_no_conflict. Qed.
+
+(* companion rules about key usage (Kernels/CaKu.v, applicability included): the certSign bit on a non-CA certificate is
+   reported by the subscriber rule exactly when the RFC rule reports it; an empty key usage on a CA by both "missing"
+   rules; the root and CA criticality rules are one test on a root *)
+Theorem c20_cert_sign_rules_agree : forall v, ku_ext v = true -> is_ca v = false -> (k_sub_cert_sign v = 6 <-> k_cert_sign_without_ca v = 6).
+Proof. exact cert_sign_rules_agree. Qed.
+Theorem c20_ku_missing_rules : forall v, is_ca v = true -> ku_ext v = true -> (k_ca_ku_missing v = 6 <-> k_ku_without_bits v = 6).
+Proof. exact ku_missing_rules. Qed.
+Theorem c20_root_ku_critical_same : forall v, root_ca v = true -> k_root_ku_critical v = k_ca_ku_not_critical v.
+Proof. exact root_ku_critical_same. Qed.
+
 Print Assumptions c20_label_pairs.
 Print Assumptions c20_uri_host_pair.
 Print Assumptions c20_uri_host_old_refuted.
@@ -66,3 +102,15 @@ Print Assumptions c20_name_twins.
 Print Assumptions c20_san_ian_twins.
 Print Assumptions c20_pub_suffix_copy_differs.
 Print Assumptions c20_raw_twins.
+Print Assumptions c20_issuer_url_twins.
+Print Assumptions c20_cdp_url_twins.
+Print Assumptions c20_strict_implies_legacy.
+Print Assumptions c20_cs_cdp_stricter.
+Print Assumptions c20_scheme_is_not_prefix.
+Print Assumptions c20_locality_rules_exclusive.
+Print Assumptions c20_province_rules_exclusive.
+Print Assumptions c20_locality_province_same.
+Print Assumptions c20_dv_values_imply_no_conflict.
+Print Assumptions c20_cert_sign_rules_agree.
+Print Assumptions c20_ku_missing_rules.
+Print Assumptions c20_root_ku_critical_same.
